@@ -6,6 +6,7 @@
     with output length [hash_output n].  No proofs in this file. *)
 From V.Lib Require Import Base Hex.
 From V.Gen Require Import C19Params.
+From V.C19 Require Import Compact.
 Local Open Scope N_scope.
 
 Inductive ekind := EInvalidParams | ECollision | EOutOfOrder | EDuplicateIdxs | ENonZeroRootHash | EOther.
@@ -181,3 +182,25 @@ Definition is_valid (soln : bytes) : outcome unit ekind :=
        | Panic => Panic
        end.
 End WithHash.
+
+(** ** zcash_primitives/src/block.rs: BlockHeader::read
+    A sequence of [read_exact]s on a cursor, then [Vector::read(.., read_u8)]: CompactSize length and
+    that many single-byte reads.  [Read::read_exact] delivers the next bytes of the stream whatever
+    the sizes in which the underlying reader hands them over, so the fragmentation is not a
+    parameter of the model.  Result: (Equihash input = the six fields before the nonce as
+    [write] re-serialises them, nonce, solution); [None] = io error. *)
+Definition take (m : nat) (cur : bytes) : option (bytes * bytes) :=
+  if (length cur <? m)%nat then None else Some (firstn m cur, skipn m cur).
+
+Definition read_header (raw : bytes) : option (bytes * bytes * bytes) :=
+  match take 4 raw with None => None | Some (version, c1) =>
+  match take 32 c1 with None => None | Some (prev, c2) =>
+  match take 32 c2 with None => None | Some (merkle, c3) =>
+  match take 32 c3 with None => None | Some (root, c4) =>
+  match take 4 c4 with None => None | Some (time, c5) =>
+  match take 4 c5 with None => None | Some (bits, c6) =>
+  match take 32 c6 with None => None | Some (nonce, c7) =>
+  match read_compact c7 with None => None | Some (l, c8) =>
+  match take (N.to_nat l) c8 with None => None | Some (soln, _) =>
+    Some (version ++ prev ++ merkle ++ root ++ time ++ bits, nonce, soln)
+  end end end end end end end end end.
